@@ -76,6 +76,15 @@ pub fn fresh_var(prefix: &str, verus_expr: &str) -> Sym {
     });
     var(&name)
 }
+pub fn fresh_name(prefix: &str) -> String {
+    ST.with(|s| {
+        let mut s = s.borrow_mut();
+        s.fresh_ctr += 1;
+        let n = if s.fresh_ctr == 1 { prefix.to_string() } else { format!("{}{}", prefix, s.fresh_ctr) };
+        s.fresh.push((n.clone(), String::new()));
+        n
+    })
+}
 pub fn add_hyp(a: Sym, b: Sym) { ST.with(|s| s.borrow_mut().hyps.push((a, b))); }
 pub fn note(t: &str) { ST.with(|s| s.borrow_mut().notes.push(t.to_string())); }
 
@@ -156,9 +165,9 @@ impl Fq {
     pub fn double(&mut self) { self.s = fdbl(self.s); }
     pub fn inverse(&self) -> Option<Fq> {
         if decide("is_zero", vec![(self.s, fzero())]) { None } else {
-            let t = fresh_var("inv", "");
-            add_hyp(fmul(self.s, t), fone());
-            Some(Fq { s: t })
+            let y = Fq::fresh(&fresh_name("inv"));
+            add_hyp(fmul(self.s, y.s), fone());
+            Some(y)
         }
     }
 }
@@ -173,3 +182,6 @@ pub fn flat_json<T: Flat>(x: &T) -> String {
     format!("[{}]", v.iter().map(|s| s.0.to_string()).collect::<Vec<_>>().join(","))
 }
 pub fn fin(_a: Sym) -> bool { true }
+pub fn last_cond_lhs() -> Vec<Sym> { ST.with(|s| s.borrow().conds.last().map(|c| c.1.iter().map(|e| e.0).collect()).unwrap_or(vec![])) }
+pub fn syms_json(v: &Vec<Sym>) -> String { format!("[{}]", v.iter().map(|s| s.0.to_string()).collect::<Vec<_>>().join(",")) }
+pub fn flat_vec<T: Flat>(x: &T) -> Vec<Sym> { let mut v = vec![]; x.flat(&mut v); v }
